@@ -259,12 +259,18 @@ class CoreEnforcer:
 
     def load_filtered_policy(self, filter):
         """reloads a filtered policy from file/database."""
-        self.model.clear_policy()
-
         if not hasattr(self.adapter, "is_filtered"):
             raise ValueError("filtered policies are not supported by this adapter")
 
-        self.adapter.load_filtered_policy(self.model, filter)
+        # a failed load leaves the policy as it was (clear_policy rebinds the rule lists, the old ones are intact)
+        saved = [(ast, ast.policy) for sec in ("p", "g") if sec in self.model.keys() for ast in self.model[sec].values()]
+        self.model.clear_policy()
+        try:
+            self.adapter.load_filtered_policy(self.model, filter)
+        except Exception:
+            for ast, policy in saved:
+                ast.policy = policy
+            raise
 
         self.model.sort_policies_by_priority()
 
